@@ -80,7 +80,9 @@ C05_NoForeignData(s, o)         == o.census.data = 0
 (* C07 - nesting chains are preserved; retained data tables are whole.     *)
 (***************************************************************************)
 C07_ChainsPreserved(s, o) ==
-    \A i \in 1..Len(o.htm) : Known(s, o.htm[i]) => o.htm[i].c = s.nodes[o.htm[i].n].c
+    /\ \A i \in 1..Len(o.htm) : Known(s, o.htm[i]) => o.htm[i].c = s.nodes[o.htm[i].n].c
+    \* the words of a tweet sit in their blockquote (and in the lists around it) inside the embed place holder too
+    /\ \A i \in 1..Len(o.phc) : Known(s, o.phc[i]) => o.phc[i].c = s.nodes[o.phc[i].n].c
 
 TableNodes(s, t) == {n \in 1..Len(s.nodes) : s.nodes[n].t = t /\ ~Never(s, n) /\ ~Skip(s, n) /\ ~InPh(s, n)}
 C07_TableWhole(s, o) ==
